@@ -84,7 +84,7 @@ def run(chk: harness.Check):
         "number, range start and range end through convert_f64 with (from, to) in parameter order. D3: the convert_value call in convert_to_unit "
         "is edge-dominated by equality of the two physical quantities; every assignment to *self in convert_impl is preceded by the fallible steps. "
         "D4: best_unit receivers come from self.best[unit.physical_quantity].conversions(system). D9: the converter's input is Number::value() for numbers and both range ends. D8: convert_impl and fit_fraction replace number and unit in one write, both from the same conversion result. D7: the C12 identity value(new_approx(v)) = v and its limit/saturation guards, claimed here because fit stores that result. D6: expand_si gives a prefixed unit ratio = base.ratio * prefix.ratio() "
-        "and the base's difference/quantity/system, and update_expanded_units overwrites all_units[expanded_id] whole with the regenerated unit. Shape and lineage only — no value is computed from an input.")
+        "and the base's difference/quantity/system, and update_expanded_units overwrites all_units[expanded_id] whole with the regenerated unit. D3 also: a value paired with an explicitly requested target unit is the result of convert_to_unit on every path. Shape and lineage only — no value is computed from an input.")
     chk.trusted = ["tables/units_reference.toml (international definitions)", "rustc const evaluation of float literals", "build.rs transfers TOML values verbatim (checked by the multiset comparison)"]
     d1_units(chk, F)
     d2_shape(chk, F)
@@ -449,6 +449,40 @@ def d3_guard(chk, F):
             has_err = any(s.get("rv", {}).get("k") == "agg" and s["rv"].get("variant") == "MixedQuantities" for _, _, s in f.iter_stmts())
             chk.expect(has_err, "C09.D3-guard", "convert_to_unit error", f"{f.file}:{f.line}", "convert_to_unit no longer returns ConvertError::MixedQuantities",
                        sample="mismatch returns ConvertError::MixedQuantities")
+    # Converter::convert: a value paired with an explicitly requested target unit always went through convert_to_unit (the only place
+    # where differing physical quantities are refused) — no shortcut that relabels the value
+    cs = [g for g in F.find("convert::Converter::convert") if not g.is_closure()]
+    if len(cs) != 1:
+        chk.fail("anchor-missing", "Converter::convert", "", f"anchor-missing: Converter::convert found {len(cs)} times")
+    else:
+        c = cs[0]
+
+        def flat(e):
+            while e[0] == "call" and e[1].endswith(("Try>::branch", "Into<U>>::into", "From<T>>::from")) and e[2]:
+                e = e[2][0]
+            if e[0] == "place" and e[1][0] == "call" and e[1][1].endswith("Try>::branch"):
+                return flat(e[1][2][0])
+            if e[0] == "phi":
+                out = []
+                for a in e[1]:
+                    out += flat(a)
+                return out
+            return [e]
+        n = 0
+        for i, j, st in c.iter_stmts():
+            rv = st.get("rv", {})
+            if st["k"] == "assign" and rv.get("k") == "agg" and rv.get("agg") == "tuple" and len(rv["ops"]) == 2:
+                unit_e = resolve(c, rv["ops"][1])
+                if unit_e[0] == "phi" or any(x[0] == "phi" for x in walk(unit_e)) or not any(l.endswith("Converter::get_unit") for l in leaves(unit_e)) or "as Unit.0" not in show(unit_e, -200):
+                    continue
+                n += 1
+                alts_ = flat(resolve(c, rv["ops"][0]))
+                bad = [a for a in alts_ if not (a[0] == "call" and a[1].endswith("Converter::convert_to_unit"))]
+                chk.expect(not bad, "C09.D3-guard", "Converter::convert|to-unit", f"{c.file}:{st.get('line')}",
+                           f"a value can be returned for an explicitly requested target unit without passing through convert_to_unit ({show(bad[0], -60)[:80] if bad else ''}): "
+                           "units of different physical quantities would be relabelled instead of refused",
+                           sample=f"{c.file}:{st.get('line')}: (value, target) ← convert_to_unit(..)? on every path")
+        chk.floor("C09.D3-guard", "(value, requested unit) results in Converter::convert", n, 1, f"{c.file}:{c.line}")
     # convert_impl: every write of *self is preceded by the fallible steps
     fs = [f for f in F.find("convert_impl") if "Quantity" in f.key and not f.is_closure()]
     if len(fs) != 1:
